@@ -685,7 +685,13 @@ func (hfh *HttpForwarderHandlerV2) constructPost(ctx context.Context, logger log
 
 func (hfh *HttpForwarderHandlerV2) DispatchEvent(ctx context.Context, e *gostatsd.Event) {
 	hfh.eventWg.Add(1)
-	go hfh.dispatchEvent(ctx, e)
+	// ctx may be the context of an HTTP request (an event received on /v2/event), which is cancelled as soon as the
+	// handler returns: like BackendHandler.DispatchEvent, post with a deadline of our own (and the caller's values).
+	go func() {
+		timeoutCtx, cancelTimeout := context.WithTimeout(context.WithoutCancel(ctx), 20*time.Second)
+		defer cancelTimeout()
+		hfh.dispatchEvent(timeoutCtx, e)
+	}()
 }
 
 func (hfh *HttpForwarderHandlerV2) dispatchEvent(ctx context.Context, e *gostatsd.Event) {
